@@ -291,7 +291,7 @@ U_SER_ALL = (["u_ser::prim_%s" % t for t in _SER_T]
              + ["u_ser::empty", "u_ser::opt_nz", "u_ser::packed", "u_ser::match_kind", "u_ser::match_kind_bytes",
                 "u_ser::bw_state", "u_ser::cw_state", "u_ser::vec_u32", "u_ser::vec_bw_state",
                 "u_ser::vec_cw_state", "u_ser::mapper", "u_ser::user_type_output"]
-             + ["u_ser::bw_output_%s" % t for t in _SER_T] + ["u_ser::cw_output_%s" % t for t in ("u8", "u32", "u128")]
+             + ["u_ser::bw_output_%s" % t for t in _SER_T]
              + ["u_ser::vec_bw_output_%s" % t for t in ("u8", "u16", "u32", "u64", "u128", "i128")]
              + ["u_ser::vec_cw_output_%s" % t for t in ("u8", "u32", "u128")]
              + ["u_ser::bw_output_empty", "u_ser::vec_bw_output_empty"])
